@@ -124,7 +124,7 @@ class CBLDM:
                 dd = n if self.d is None else self.d
                 if abs(len(lists[0]) - len(lists[1])) > dd:
                     c.report('cardinality-bound', 'bin sizes %d and %d differ by more than %s' % (len(lists[0]), len(lists[1]), dd)); return
-                conj = [mine <= zabs(2 * zsum(xs[i] for i in S) - tot) for r in range(n + 1) if abs(2 * r - n) <= dd for S in itertools.combinations(range(n), r)]
+                conj = [z3.Or(mine <= 2 * zsum(xs[i] for i in S) - tot, mine <= tot - 2 * zsum(xs[i] for i in S)) for r in range(n + 1) if abs(2 * r - n) <= dd for S in itertools.combinations(range(n), r)]
                 c.check('suboptimal-without-interrupt', z3.And(conj), 'not interrupted, yet the two-way difference is not minimal')
         if len(runs) == 2:
             (la, za, fa, ia), (lb, zb, fb, ib) = runs
